@@ -974,6 +974,32 @@ _WAVE8 = {
 for _k, _t in _WAVE8.items():
     PROPERTIES[_k]['explanation'] = PROPERTIES[_k]['explanation'] + ' ' + _t
 
+
+# clauses added by the ninth seed wave (DESIGN.md section 22)
+_WAVE9 = {
+    'C02': "TAB24: a text nested exactly CJSON_NESTING_LIMIT containers deep is accepted - every test of the depth counter on the way into a "
+           "container sees the counter before this level's own increment and refuses at >= LIMIT (or after it, at > LIMIT).",
+    'C04': "BND4: what print_number prints into its scratch array fits it, '*' precisions read from the argument list (a number that does not "
+           "fit is not printed at all).",
+    'C09': "OUT1 also accepts one byte at P.offset of the caller's own block behind a test of P.offset < P.length; OUT8 takes the failure edge of "
+           "a printer call for the end of that text.",
+    'C11': "TAB24: a node exactly CJSON_CIRCULAR_LIMIT levels below the root is copied, one level more is refused (a depth test every "
+           "successful return lies behind judges the node itself, one that only the recursive call lies behind judges the children).",
+    'C12': "SHP5: cJSON_Compare evaluated against the definition of equality on ~8900 pairs of short trees (scalars of every kind, with and "
+           "without the ownership flags; arrays of up to three scalars; objects of up to two members with keys from {a, A, b}; one more level "
+           "of nesting with keys that differ in case only), both flag values; NULL and invalid arguments unequal; arguments unmodified.",
+    'C13': "TAB19 follows cursors handed over by value and judges the opener from what every caller has already stepped over: nothing of the "
+           "opener that is still ahead when the scan begins can begin the closer; a skipper that meets the terminator leaves the cursor on it.",
+    'C15': "IDX1: an index token handed to strtoul/strtol lies behind tests that its first byte is a decimal digit. FND1: in the search for "
+           "a node no branch that depends on neither the tree nor the target (a depth budget) may make it answer NULL.",
+    'C16': "IDX1 (see C15).",
+    'C17': "ORD2: no position in a member list (a local set from X->child) is read behind sort_object(X) without being set again. TAB20 accepts a "
+           "difference of first key bytes only as unsigned char, where they differ, in exact comparisons (the sign strcmp gives).",
+    'C18': "ORD2 (see C17).",
+}
+for _k, _t in _WAVE9.items():
+    PROPERTIES[_k]['explanation'] = PROPERTIES[_k]['explanation'] + ' ' + _t
+
 def claimed():
     return sorted(PROPERTIES)
 
